@@ -1,35 +1,25 @@
 (** C08 -- Trajectory answers do not depend on earlier queries (yaw player:
-    Props/Properties_C10.v).  Statements only; proofs in Proofs/Player_Proofs.v. *)
+    Props/Properties_C10.v).  Statements only; proofs in Proofs/Player_Proofs.v,
+    which also holds the definitions used here:
+    [reachable] (cursors a player can be parked on: the first segment, or the
+    successor of a reachable cursor whose segment decodes),
+    [positive_durations] (every segment lasts at least 1 ms and start times do
+    not wrap), [qtime_eq] (equality of query times as rationals),
+    [same_or_adjacent'] ([l] is the fresh answer [l0], or [t] is exactly the
+    boundary between the segment of [l0] and the next one and [l] is parked on
+    that next one), [parked] (the initial cursor, or one whose segment header
+    decoded: what a query leaves behind), [run_history]. *)
 From Coq Require Import QArith List ZArith.
 From SB Require Import Base.Prelude Base.Num Gen.Generated Model.Poly Model.Traj Proofs.Player_Proofs.
 Import ListNotations.
 Local Open Scope Z_scope.
 
-(** Cursors a player can be parked on: the first segment, or the successor of
-    a reachable cursor whose segment decodes. *)
-Inductive reachable (tr : traj) : cursor -> Prop :=
-| reach0 : reachable tr (cursor0 tr)
-| reachS : forall c s rest', reachable tr c ->
-    decode_segment (t_scale tr) (c_start c) (c_rest c) = Ok (Some (s, rest')) ->
-    reachable tr (next_cursor c s rest').
-
-(** Every segment lasts at least 1 ms and start times do not wrap. *)
-Definition positive_durations (tr : traj) : Prop :=
-  forall c s rest', reachable tr c ->
-    decode_segment (t_scale tr) (c_start c) (c_rest c) = Ok (Some (s, rest')) ->
-    0 < sg_dur s /\ c_start_ms c + sg_dur s < 4294967296.
-
-(** [l] is the fresh answer [l0], or [t] is exactly the boundary between the
-    segment of [l0] and the next one and [l] is parked on that next one. *)
-Definition same_or_adjacent (tr : traj) (l l0 : landing) (t : qtime) : Prop :=
-  l = l0 \/
-  match l0 with
-  | OnSegment c0 s0 _ =>
-    clamp0 t = QFin (ms_sec (c_start_ms c0 + sg_dur s0)) /\
-    exists rest', decode_segment (t_scale tr) (c_start c0) (c_rest c0) = Ok (Some (s0, rest')) /\
-                  landing_cursor l = next_cursor c0 s0 rest'
-  | OnEnd _ => False
-  end.
+Print reachable.
+Print positive_durations.
+Print qtime_eq.
+Print same_or_adjacent'.
+Print parked.
+Print run_history.
 
 (** From any reachable cursor (i.e. after any history of queries) a query
     lands where a fresh player lands, or on the adjoining segment when [t] is
@@ -38,31 +28,33 @@ Theorem seek_history_independent : forall tr c t l,
   positive_durations tr -> reachable tr c ->
   seek tr c t = Ok l ->
   reachable tr (landing_cursor l) /\
-  exists l0, seek tr (cursor0 tr) t = Ok l0 /\ same_or_adjacent tr l l0 t.
-Proof. exact Player_Proofs.seek_history_independent. Qed.
+  exists l0, seek tr (cursor0 tr) t = Ok l0 /\ same_or_adjacent' tr l l0 t.
+Proof. exact Player_Proofs.seek_history_independent'. Qed.
 Print Assumptions seek_history_independent.
 
-(** Errors do not depend on history either. *)
+(** Errors do not depend on history either (for a cursor a query can leave
+    the player on: [history_parked]). *)
 Theorem seek_error_independent : forall tr c t e,
-  positive_durations tr -> reachable tr c ->
+  positive_durations tr -> reachable tr c -> parked tr c ->
   seek tr c t = Err e -> seek tr (cursor0 tr) t = Err e.
-Proof. exact Player_Proofs.seek_error_independent. Qed.
+Proof. exact Player_Proofs.seek_error_independent'. Qed.
 Print Assumptions seek_error_independent.
 
-(** Any sequence of earlier queries leaves a reachable cursor. *)
-Fixpoint run_history (tr : traj) (c : cursor) (ts : list qtime) : cursor :=
-  match ts with
-  | [] => c
-  | t :: rest => match seek tr c t with
-                 | Ok l => run_history tr (landing_cursor l) rest
-                 | _ => run_history tr c rest
-                 end
-  end.
-
+(** Any sequence of earlier queries leaves a reachable, parked cursor. *)
 Theorem history_reachable : forall tr ts,
   positive_durations tr -> reachable tr (run_history tr (cursor0 tr) ts).
 Proof. exact Player_Proofs.history_reachable. Qed.
 Print Assumptions history_reachable.
+
+Theorem history_parked : forall tr ts, parked tr (run_history tr (cursor0 tr) ts).
+Proof. exact Player_Proofs.history_parked. Qed.
+Print Assumptions history_parked.
+
+Theorem seek_error_after_history : forall tr ts t e,
+  positive_durations tr ->
+  seek tr (run_history tr (cursor0 tr) ts) t = Err e -> seek tr (cursor0 tr) t = Err e.
+Proof. exact Player_Proofs.seek_error_after_history. Qed.
+Print Assumptions seek_error_after_history.
 
 (** The value returned is a function of the landing only (segment and
     relative time): no other state enters -- in particular the derivative
@@ -75,3 +67,10 @@ Proof. exact Player_Proofs.value_fn_of_landing. Qed.
 Theorem seek_never_out_of_fuel : forall tr c t, reachable tr c -> seek tr c t <> Fuel.
 Proof. exact Player_Proofs.seek_never_out_of_fuel. Qed.
 Print Assumptions seek_never_out_of_fuel.
+
+(** The first formulation (syntactic equality of the boundary instant;
+    errors from any reachable cursor) is refuted: *)
+Check Player_Proofs.Counterexamples.seek_history_independent_false.
+Check Player_Proofs.Counterexamples.seek_error_independent_false.
+Print Assumptions Player_Proofs.Counterexamples.seek_history_independent_false.
+Print Assumptions Player_Proofs.Counterexamples.seek_error_independent_false.
